@@ -157,7 +157,20 @@ def check_pty_close(c, f):
         c.check(bool(asg) and ok and not pre, f, asg[0].ast if asg else k, 'after ptyprocess.close(): self.%s = %r, on every path, not before' % (attr, val),
                 witness=g.describe_path(p) if p else None, tag='post:' + attr)
     mn, mx = g.occurrences(lambda x: x is n)
-    c.check(mn == 1 and mx == 1, f, k, 'ptyprocess.close() is called on every path (idempotence is ptyprocess\' own)', witness='min=%s max=%s' % (mn, mx), tag='always-closes')
+    # the one way round the call that changes nothing: `if self.closed: return` (closed is True only after a close that returned
+    # normally -- the obligations above and below -- or before anything was spawned); any other test leaves the path counted
+    done_edges = set()
+    for t in g.nodes:
+        if t.kind == 'test':
+            e_, neg = t.ast, False
+            while isinstance(e_, ast.UnaryOp) and isinstance(e_.op, ast.Not):
+                neg = not neg
+                e_ = e_.operand
+            if norm(e_) == 'self.closed':
+                done_edges.add((t, 'false' if neg else 'true'))
+    skip = g.path(g.entry, {g.exit}, avoid={n}, skip_labels=('exc',), avoid_edges=done_edges)
+    c.check(skip is None and mx == 1, f, k, 'ptyprocess.close() is called on every path, once (idempotence is ptyprocess\' own; an object that is already '
+            'closed may return at once)', witness=('min=%s max=%s' % (mn, mx)) + ('; path: ' + g.describe_path(skip) if skip else ''), tag='always-closes')
     # a close that FAILED (PtyProcessError: child survived the polite signals) must not mark the object closed:
     # no assignment of closed/child_fd may be reachable from the exceptional continuation of the close call
     marks = [m for m in g.nodes if m.kind == 'stmt' and (stmt_assigns_attr(m.ast, 'closed') is not None or stmt_assigns_attr(m.ast, 'child_fd') is not None)]
